@@ -635,6 +635,7 @@ type Specs struct {
 	TypeInv      map[string][]Clause
 	Frames       map[string][]*SExpr
 	Persisted    []*Persisted
+	Flags        []*FlagDecl
 	StableNonNil map[string]bool // heap keys whose non-nil-ness, once established, is never undone
 	GlobalInv    []Clause        // invariants over shared state that hold at every instant (assumed at entry / after interference, proved at every return)
 }
@@ -648,7 +649,7 @@ var itemKeywords = map[string]bool{
 	"func": true, "assume": true, "requires": true, "ensures": true, "assigns": true, "emits": true,
 	"loop": true, "on_panic": true, "spec": true, "ghost": true, "lemma": true, "axiom": true,
 	"on_store": true, "guarded_by": true, "lock_rank": true, "immutable": true, "attr": true,
-	"may_emit": true, "global_invariant": true, "stable": true, "frame": true, "uses": true, "params": true, "results": true, "lock_invariant": true, "type_invariant": true, "end": true, "persisted": true,
+	"may_emit": true, "global_invariant": true, "stable": true, "frame": true, "uses": true, "params": true, "results": true, "lock_invariant": true, "type_invariant": true, "end": true, "persisted": true, "flags": true,
 }
 
 // Persisted declares that the named fields of a struct type make the round
@@ -658,6 +659,19 @@ type Persisted struct {
 	Type   string
 	Fields []string
 	Tags   []string
+}
+
+// FlagDecl declares which variable each command-line flag of a command is
+// bound to (and optionally its default): decided from the SSA of the
+// constructor, no solver.
+type FlagDecl struct {
+	Func     string
+	Tags     []string
+	Bindings []FlagBinding
+}
+
+type FlagBinding struct {
+	Name, Path, Default string
 }
 
 type rawItem struct {
@@ -1073,6 +1087,42 @@ func (sp *Specs) parseItem(path string, it rawItem, cur **FuncContract) error {
 		for _, f := range strings.Split(rest, "<") {
 			sp.LockRank = append(sp.LockRank, strings.TrimSpace(f))
 		}
+	case "flags":
+		// flags[Cxx] <function key>: name -> path [= default]; name -> path ...
+		*cur = nil
+		tags := ""
+		if strings.HasPrefix(rest, "[") {
+			j := strings.Index(rest, "]")
+			tags, rest = rest[1:j], strings.TrimSpace(rest[j+1:])
+		}
+		i := strings.Index(rest, ":")
+		if i < 0 {
+			return fmt.Errorf("flags: expected '<function>: name -> path; ...'")
+		}
+		fd := &FlagDecl{Func: strings.TrimSpace(rest[:i])}
+		for _, t := range strings.Split(tags, ",") {
+			if t = strings.TrimSpace(t); t != "" {
+				fd.Tags = append(fd.Tags, t)
+			}
+		}
+		for _, part := range strings.Split(rest[i+1:], ";") {
+			part = strings.TrimSpace(part)
+			if part == "" {
+				continue
+			}
+			kv := strings.SplitN(part, "->", 2)
+			if len(kv) != 2 {
+				return fmt.Errorf("flags: bad entry %q", part)
+			}
+			b := FlagBinding{Name: strings.TrimSpace(kv[0])}
+			pd := strings.SplitN(kv[1], "=", 2)
+			b.Path = strings.TrimSpace(pd[0])
+			if len(pd) == 2 {
+				b.Default = strings.TrimSpace(pd[1])
+			}
+			fd.Bindings = append(fd.Bindings, b)
+		}
+		sp.Flags = append(sp.Flags, fd)
 	case "persisted":
 		// persisted[Cxx] <type>: Field, Field, ...   (a JSON shape obligation)
 		*cur = nil
